@@ -1317,6 +1317,7 @@ func (o *ovsdbClient) handleDisconnectNotification() {
 	o.rpcMutex.Lock()
 	if o.options.reconnect && !o.shutdown {
 		o.rpcClient = nil
+		o.connected = false
 		o.rpcMutex.Unlock()
 		suppressionCounter := 1
 		connect := func() error {
